@@ -6,18 +6,17 @@
 package c08
 
 import (
-	"bytes"
 	"encoding/json"
 	"fmt"
 	"math"
 	"sort"
 	"strings"
 
-	"github.com/EliCDavis/polyform/formats/ply"
 	"github.com/EliCDavis/polyform/modeling"
 
 	"verif/harness/core"
 	"verif/harness/meshlib"
+	"verif/harness/props/plyio"
 	"verif/harness/props/plyref"
 )
 
@@ -58,6 +57,10 @@ type Case struct {
 	Faces   [][]int `json:"faces,omitempty"`
 	// Big: vertex 2 of int / double properties carries a number that single precision cannot hold
 	Big bool `json:"big,omitempty"`
+	// Ext: int properties carry the extremes -1, -2147483648, 2147483647 (rotated per property)
+	Ext bool `json:"ext,omitempty"`
+	// Files: also deliver through *os.File and ply.Load (temp file under /dev/shm)
+	Files bool `json:"files,omitempty"`
 	// Ladder/N describe a size-ladder file compactly (NV and Faces are derived, never stored):
 	//   cloud  N vertex records, no face element
 	//   faces  N faces over N+3 vertices: face f is the quad (f+3, f+1, f, f+2) when f%3 == 2,
@@ -105,8 +108,18 @@ var f64vals = []float64{0.1, -2.7e-5, 1.0 / 3, 123456.789012345, -0.5, 2, 1e-9}
 // that a colour tuple identifies its vertex and no value sequence has a power-of-two period.
 var ucharPeriod = map[string]int{"red": 251, "green": 241, "blue": 239, "alpha": 233}
 
-func value(name, typ string, i int, big, ladder bool) float64 {
+var intExtremes = []float64{-1, -2147483648, 2147483647}
+
+func value(name, typ string, i int, big, ladder, ext bool) float64 {
 	s := salt(name)
+	if typ == "int" {
+		if ext && i < 3 {
+			return intExtremes[(i+s)%3]
+		}
+		if ladder && i >= 1 && i <= 3 {
+			return intExtremes[i-1]
+		}
+	}
 	switch typ {
 	case "uchar":
 		if p, ok := ucharPeriod[name]; ok && ladder {
@@ -141,7 +154,7 @@ func init() {
 		for _, n := range []string{"x", "y", "z", "nx", "red", "alpha", "s", "t", "intensity", "confidence"} {
 			for i := 0; i < 5; i++ {
 				for j := i + 1; j < 5; j++ {
-					if value(n, t, i, false, false) == value(n, t, j, false, false) {
+					if value(n, t, i, false, false, false) == value(n, t, j, false, false, false) {
 						panic(fmt.Sprintf("c08: values of %s/%s not vertex-unique (%d,%d)", n, t, i, j))
 					}
 				}
@@ -160,7 +173,7 @@ func (cs Case) file() (*plyref.File, plyref.Layout) {
 	for i := 0; i < cs.NV; i++ {
 		row := make([][]float64, len(cs.VProps))
 		for k, p := range cs.VProps {
-			row[k] = []float64{value(p.Name, p.Type, i, cs.Big, cs.Ladder != "")}
+			row[k] = []float64{value(p.Name, p.Type, i, cs.Big, cs.Ladder != "", cs.Ext)}
 		}
 		ve.Rows = append(ve.Rows, row)
 	}
@@ -211,6 +224,7 @@ const (
 	clauseVert  = "vertex i carries exactly the values of record i; recognised groups become the corresponding attributes and unknown scalars become scalar attributes"
 	clauseFaces = "faces become triangles over their listed vertices; each quad contributes the fan triangles (0,1,2) and (0,2,3)"
 	clauseUV    = "the texture coordinates of a face's texcoord list arrive at the corresponding corners"
+	clauseReader = "the file loads to the mesh it describes whatever io.Reader delivers its bytes (result identical to the *bytes.Reader delivery)"
 )
 
 type checker struct{ c *core.Ctx }
@@ -346,26 +360,21 @@ func (k checker) eval(cs Case) {
 		}
 		c.Violate(core.Violation{Site: site, Clause: clause, Class: class, Detail: detail + " | " + describe(cs), Case: compact})
 	}
+	base := plyio.Base(data) // the reference delivery: *bytes.Reader
 	outcome := func() string {
-		var m *modeling.Mesh
-		var err error
-		o := core.Guard(func() { m, err = ply.ReadMesh(bytes.NewReader(data)) })
-		if o.Crash() {
-			violate(site(o.Stack), clauseLoad, "crash/"+fl+"/"+cs.Scope+"/"+faceClass(cs), "reader crashed: "+o.Msg)
+		if base.Crash {
+			violate(base.Site, clauseLoad, "crash/"+fl+"/"+cs.Scope+"/"+faceClass(cs), "reader crashed: "+base.Err)
 			return "crash"
 		}
-		if o.Panicked || err != nil || m == nil {
-			msg := o.Msg
-			if err != nil {
-				msg = err.Error()
-			}
-			violate("ply.MeshReader.Read", clauseLoad, "error/"+fl+"/"+cs.Scope+"/"+faceClass(cs), "reader refused a valid file: "+msg)
+		if !base.Loaded() {
+			violate("ply.MeshReader.Read", clauseLoad, "error/"+fl+"/"+cs.Scope+"/"+faceClass(cs), "reader refused a valid file: "+base.Err)
 			return "error"
 		}
 		if !isAlarmed {
 			return "loaded"
 		}
-		s := meshlib.Snapshot(*m)
+		m := base.Mesh
+		s := base.Snap()
 		wantTopo := modeling.PointTopology
 		if want.Topo == "tri" {
 			wantTopo = modeling.TriangleTopology
@@ -451,6 +460,27 @@ func (k checker) eval(cs Case) {
 		return "ok"
 	}()
 	c.Eval(scope, outcome)
+	// the same bytes through every other delivery: identical result demanded
+	hdr := "lf"
+	if cs.CRLF {
+		hdr = "crlf"
+	}
+	vscope := "reader-variants/" + scope
+	if !isAlarmed {
+		c.ReportedOnly(vscope, "reader variants on files outside the supported grammar: run and counted, never alarmed")
+	}
+	differs := 0
+	nv := plyio.Variants(data, base, cs.Files, func(variant, kind, vsite, detail string) {
+		violate(vsite, clauseReader, "reader="+variant+"/"+kind+"/"+fl+"/"+hdr+"-header"+zeroFaces(cs), detail)
+		differs++
+	})
+	for i := 0; i < nv; i++ {
+		if i < differs {
+			c.Eval(vscope, "differs")
+		} else {
+			c.Eval(vscope, "identical")
+		}
+	}
 	if isAlarmed && cs.NV > 0 && len(cs.VProps) > 0 {
 		c.NontrivialHash(core.Hash(data))
 	}
@@ -711,9 +741,10 @@ var (
 	gUV   = group{"uv", []string{"s", "t"}}
 	gU1   = group{"u1", []string{"intensity"}}
 	gU2   = group{"u2", []string{"confidence"}}
+	gOpa  = group{"opacity", []string{"opacity"}}
 )
 
-var allGroups = []group{gPos, gNrm, gCol3, gCol4, gUV, gU1, gU2}
+var allGroups = []group{gPos, gNrm, gCol3, gCol4, gUV, gU1, gU2, gOpa}
 var vtypes = []string{"uchar", "int", "float", "double"}
 
 func permutations(n int) [][]int {
@@ -841,18 +872,18 @@ func (k checker) permutations(next func() bool) {
 				pp := permute(ps, perm)
 				for _, f := range plyref.Formats {
 					k.eval(Case{Scope: "permutations", Format: f, VProps: pp, NV: 3, Big: true})
-					k.eval(Case{Scope: "permutations", Format: f, VProps: pp, NV: 3, HasFace: true, FLists: []FList{baseIdx}, Faces: [][]int{{2, 0, 1}}})
+					k.eval(Case{Scope: "permutations", Format: f, VProps: pp, NV: 3, Ext: true, HasFace: true, FLists: []FList{baseIdx}, Faces: [][]int{{2, 0, 1}}})
 				}
 			}
 		}
 	}
 }
 
-// S1b: all fourteen properties at once in a family of orders (identity, reverse, every rotation,
+// S1b: all fifteen properties at once in a family of orders (identity, reverse, every rotation,
 // round-robin across the groups) × types per group.
 func (k checker) interleavings(next func() bool) {
 	c := k.c
-	gs := []group{gPos, gNrm, gCol4, gUV, gU1, gU2}
+	gs := []group{gPos, gNrm, gCol4, gUV, gU1, gU2, gOpa}
 	n := size(gs)
 	var orders [][]int
 	id := make([]int, n)
@@ -871,7 +902,7 @@ func (k checker) interleavings(next func() bool) {
 		rev[i] = n - 1 - i
 	}
 	orders = append(orders, rev)
-	// round robin: x nx red s intensity confidence y ny green t z nz blue alpha
+	// round robin: x nx red s intensity confidence opacity y ny green t z nz blue alpha
 	var rr []int
 	for round := 0; round < 4; round++ {
 		off := 0
@@ -918,14 +949,14 @@ func (k checker) interleavings(next func() bool) {
 			}
 			pp := permute(ps, o)
 			for _, f := range plyref.Formats {
-				k.eval(Case{Scope: "interleavings", Format: f, VProps: pp, NV: 3, HasFace: true, FLists: []FList{baseIdx}, Faces: [][]int{{0, 1, 2}, {2, 1, 0}}})
+				k.eval(Case{Scope: "interleavings", Format: f, VProps: pp, NV: 3, Ext: true, HasFace: true, FLists: []FList{baseIdx}, Faces: [][]int{{0, 1, 2}, {2, 1, 0}}})
 			}
 		}
 	}
 }
 
 var baseProps = []VProp{{Name: "x", Type: "float"}, {Name: "y", Type: "float"}, {Name: "z", Type: "float"},
-	{Name: "red", Type: "uchar"}, {Name: "green", Type: "uchar"}, {Name: "blue", Type: "uchar"}, {Name: "intensity", Type: "int"}}
+	{Name: "red", Type: "uchar"}, {Name: "green", Type: "uchar"}, {Name: "blue", Type: "uchar"}, {Name: "intensity", Type: "int"}, {Name: "opacity", Type: "int"}}
 
 // S0: base layouts — a smoke level that also anchors the other dimensions.
 func (k checker) layouts(next func() bool) {
@@ -933,8 +964,8 @@ func (k checker) layouts(next func() bool) {
 		if !next() {
 			continue
 		}
-		k.eval(Case{Scope: "base", Format: f, VProps: baseProps, NV: 3})
-		k.eval(Case{Scope: "base", Format: f, VProps: baseProps, NV: 4, HasFace: true, FLists: []FList{baseIdx}, Faces: [][]int{{0, 1, 2}, {0, 2, 3}}})
+		k.eval(Case{Scope: "base", Format: f, VProps: baseProps, NV: 3, Ext: true, Files: true})
+		k.eval(Case{Scope: "base", Format: f, VProps: baseProps, NV: 4, Ext: true, Files: true, HasFace: true, FLists: []FList{baseIdx}, Faces: [][]int{{0, 1, 2}, {0, 2, 3}}})
 	}
 }
 
@@ -1007,7 +1038,7 @@ func (k checker) faces(next func() bool) {
 									lists = append([]FList{{Name: "flags", Count: "uchar", Type: "int"}}, lists...)
 								}
 								for _, f := range plyref.Formats {
-									k.eval(Case{Scope: "faces", Format: f, VProps: vprops, NV: nv, HasFace: true, FLists: lists, Faces: seq})
+									k.eval(Case{Scope: "faces", Format: f, VProps: vprops, NV: nv, Ext: true, HasFace: true, FLists: lists, Faces: seq})
 								}
 							}
 						}
@@ -1032,7 +1063,7 @@ func (k checker) headerText(next func() bool) {
 		"comment format ascii 1.0",
 	}
 	c.Bound("header_text.lines", len(texts))
-	base := Case{Scope: "header-text", VProps: baseProps, NV: 3, HasFace: true,
+	base := Case{Scope: "header-text", VProps: baseProps, NV: 3, Ext: true, Files: true, HasFace: true,
 		FLists: []FList{baseIdx, {Name: "texcoord", Count: "uchar", Type: "float"}}, Faces: [][]int{{0, 1, 2}}}
 	f0, _ := base.withFormat(plyref.ASCII).file()
 	n := f0.NumHeaderLines()
@@ -1072,7 +1103,7 @@ func (k checker) headerText(next func() bool) {
 			if !next() {
 				continue
 			}
-			k.eval(Case{Scope: "header-text", Format: f, CRLF: true, VProps: baseProps, NV: nv})
+			k.eval(Case{Scope: "header-text", Format: f, CRLF: true, VProps: baseProps, NV: nv, Ext: true, Files: true})
 		}
 	}
 }
@@ -1101,7 +1132,7 @@ func (k checker) spellings(next func() bool) {
 				}
 			}
 			for _, f := range plyref.Formats {
-				k.eval(Case{Scope: "type-spellings", Format: f, VProps: ps, NV: 3})
+				k.eval(Case{Scope: "type-spellings", Format: f, VProps: ps, NV: 3, Ext: true})
 			}
 		}
 	}
@@ -1151,11 +1182,11 @@ func (k checker) counts(next func() bool) {
 			if !next() {
 				continue
 			}
-			k.eval(Case{Scope: "counts", Format: f, VProps: baseProps, NV: nv})
-			k.eval(Case{Scope: "counts", Format: f, VProps: baseProps, NV: nv, HasFace: true, FLists: []FList{baseIdx}, Faces: [][]int{}})
+			k.eval(Case{Scope: "counts", Format: f, Ext: true, Files: true, VProps: baseProps, NV: nv})
+			k.eval(Case{Scope: "counts", Format: f, Ext: true, Files: true, VProps: baseProps, NV: nv, HasFace: true, FLists: []FList{baseIdx}, Faces: [][]int{}})
 			if nv == 3 {
-				k.eval(Case{Scope: "counts", Format: f, VProps: baseProps, NV: nv, HasFace: true, FLists: []FList{baseIdx}, Faces: [][]int{{0, 1, 2}}})
-				k.eval(Case{Scope: "counts", Format: f, VProps: baseProps, NV: nv, HasFace: true, FLists: []FList{baseIdx}, Faces: [][]int{{0, 1, 2}, {2, 1, 0}}})
+				k.eval(Case{Scope: "counts", Format: f, Ext: true, Files: true, VProps: baseProps, NV: nv, HasFace: true, FLists: []FList{baseIdx}, Faces: [][]int{{0, 1, 2}}})
+				k.eval(Case{Scope: "counts", Format: f, Ext: true, Files: true, VProps: baseProps, NV: nv, HasFace: true, FLists: []FList{baseIdx}, Faces: [][]int{{0, 1, 2}, {2, 1, 0}}})
 			}
 		}
 	}
@@ -1196,6 +1227,8 @@ func (k checker) ladder(next func() bool) {
 			case 3:
 				cs = Case{Scope: "size-ladder/faces", VProps: vprops, Ladder: "faces", N: n, FLists: []FList{{Name: "vertex_indices", Count: "uint", Type: "uint"}}}
 			}
+			// *os.File / ply.Load do real I/O: the rungs up to 2^12+1 and the top rung only
+			cs.Files = n <= 4097 || n == sizes[len(sizes)-1]
 			for _, f := range plyref.Formats {
 				k.eval(cs.withFormat(f))
 			}
